@@ -50,6 +50,8 @@ def kinds_for(schema, fdef, natural=None):
             itd = schema.type(item_core[1])
             if itd.kind in ("SCALAR", "ENUM"):
                 bads.append(("item-unserialisable", Bad()))
+                if itd.name == "Tag":
+                    bads.append(("item-serialises-to-null", "nullify"))
             elif itd.kind in ("INTERFACE", "UNION"):
                 bads.append(("item-unknown-type", {"_typename": "Nope", "id": "x"}))
                 foreign = [o.name for o in schema.types if o.kind == "OBJECT" and o.name not in schema.possible_types(itd.name)
@@ -65,6 +67,8 @@ def kinds_for(schema, fdef, natural=None):
         td = schema.type(core[1])
         if td.kind in ("SCALAR", "ENUM"):
             out.append(("unserialisable", "value", Bad()))
+            if td.name == "Tag":
+                out.append(("serialises-to-null", "value", "nullify"))  # the custom scalar turns this value into null
         elif td.kind in ("INTERFACE", "UNION"):
             out.append(("unknown-type", "value", {"_typename": "Nope", "id": "x"}))
             foreign = [o.name for o in schema.types if o.kind == "OBJECT" and o.name not in schema.possible_types(td.name)
@@ -232,10 +236,11 @@ def wrap(w, name):
 
 def chain_schema(w1, w2, w3):
     sdl = """
+scalar Tag
 type Query { a: %s k: Int }
 type A { b: %s k: Int }
-type B { c: %s k: Int }
-""" % (wrap(w1, "A"), wrap(w2, "B"), wrap(w3, "Int"))
+type B { c: %s k: Int t: %s }
+""" % (wrap(w1, "A"), wrap(w2, "B"), wrap(w3, "Int"), wrap(w3, "Tag"))
     return S.parse_sdl(sdl)
 
 
@@ -255,8 +260,13 @@ def chain_root(schema):
         n[0] += 1
         return n[0]
 
+    def leaf_t():
+        n[0] += 1
+        return "t%d" % n[0]
+
     def obj_b():
-        return {"c": chain_value(schema.field_def("B", "c").type, leaf_c), "k": 7}
+        return {"c": chain_value(schema.field_def("B", "c").type, leaf_c), "k": 7,
+                "t": chain_value(schema.field_def("B", "t").type, leaf_t)}
 
     def obj_a():
         return {"b": chain_value(schema.field_def("A", "b").type, obj_b), "k": 8}
@@ -264,7 +274,7 @@ def chain_root(schema):
     return {"a": chain_value(schema.field_def("Query", "a").type, obj_a), "k": 9}
 
 
-CHAIN_DOC = "{ k a { k b { k c } } }"
+CHAIN_DOC = "{ k a { k b { k c t } } }"
 
 
 ARG_DOCS = [
